@@ -26,8 +26,8 @@ fn oracle(ctx: &Ctx<'_>, _stats: &mut ShardStats) -> Vec<(String, String)> {
 
 pub fn families(tier: Tier) -> Vec<Family> {
     vec![
-        Family { menu: Menu::General, k: tier.pick(4, 5) },
-        Family { menu: Menu::Args, k: tier.pick(3, 4) },
+        Family { menu: Menu::General, k: tier.pick(4, 6) },
+        Family { menu: Menu::Args, k: tier.pick(3, 5) },
         Family { menu: Menu::Abstract, k: tier.pick(4, 6) },
         Family { menu: Menu::Cycles, k: tier.pick(2, 3) },
         Family { menu: Menu::ClientArgs, k: tier.pick(3, 4) },
